@@ -104,3 +104,9 @@ CONFIG = {
                     "events, i.e. on Go's map iteration order (reproduced on the real code, see the C11 report)",
                     "within the supplied events the event ID identifies the event and there is at most one create event (V.C11.Input)"],
 }
+# statement-by-statement translation of small pure Go functions (tools/extract/trans.go -> lean/VGen/TransStateRes.lean) and the
+# theorems that the translated definitions equal the model's, for all inputs (lean/VProps/TransStateRes.lean)
+CONFIG["lean"] = list(CONFIG["lean"]) + ["VProps.TransStateRes"]
+CONFIG["sources"] = list(CONFIG["sources"]) + ['VProps/TransStateRes.lean', 'VModel/GoSem.lean']
+CONFIG["theorems"] = list(CONFIG["theorems"]) + ['V.Trans.StateRes.powerLevelHeap_lt_eq_model', 'V.Trans.StateRes.powerLevelHeap_zero_iff', 'V.Trans.StateRes.otherHeap_lt_eq_model']
+CONFIG["trusted"] = list(CONFIG["trusted"]) + ["tools/extract/trans.go: the Go-to-Lean translation of the whitelisted functions and the Go semantics of lean/VModel/GoSem.lean (DESIGN.md §14)"]
